@@ -9,10 +9,18 @@ import BumpverVerif.Gen.F_v1NormalizedPattern
 set_option linter.unusedSimpArgs false
 namespace BV
 
+/-- `x in (a, b, …)` / `x in [a, b, …]` as the chain of equalities -/
+theorem v1_elem_cons_eq_true (a b : Str) (l : List Str) :
+    (List.elem a (b :: l) = true) = (a = b ∨ List.elem a l = true) := by
+  simp [List.elem_cons, Bool.or_eq_true, beq_iff_eq]
+
+theorem v1_elem_nil_eq_true (a : Str) : (List.elem a [] = true) = False := by simp
+
 theorem tie_v1NormalizedPattern (versionPattern raw : Str) :
     GenV1.v1NormalizedPattern versionPattern raw = v1NormalizedPattern versionPattern raw := by
   unfold GenV1.v1NormalizedPattern v1NormalizedPattern
-  simp only [Gen.v1Pep440VersionMap, lookup, beq_iff_eq, Bool.or_eq_true, Bool.and_eq_true]
+  simp only [Gen.v1Pep440VersionMap, lookup, beq_iff_eq, Bool.or_eq_true, Bool.and_eq_true, v1_elem_cons_eq_true,
+    v1_elem_nil_eq_true, or_false]
   by_cases h1 : versionPattern = "{pycalver}".toList
   · simp only [eq_true h1, if_true, true_or, or_true]
   simp only [eq_false h1, if_false, false_or, or_false]
